@@ -225,20 +225,15 @@ def run(task, ctx):
                 continue
             check_trailers(ctx, label, data)
     else:
-        watch = runner.Watch(4)
-        try:
-            for label, data in fuzzspace.inputs(task[1:], ctx.tier,
-                                                ctx.seed):
-                watch.tick()
-                try:
-                    decoded = check_envelope(ctx, label, data)
-                except runner.Hang:
-                    ctx.cap('a non-terminating input was skipped (see C08)')
-                    watch.rearm()
-                    continue
-                ctx.case(data, decoded)
-        finally:
-            watch.close()
+        ctx.rearm(4)
+        for label, data in fuzzspace.inputs(task[1:], ctx.tier, ctx.seed):
+            try:
+                decoded = check_envelope(ctx, label, data)
+            except runner.Hang:
+                ctx.cap('a non-terminating input was skipped (see C08)')
+                ctx.rearm(4)
+                continue
+            ctx.case(data, decoded)
 
 
 def replay(case, ctx):
